@@ -264,8 +264,11 @@ func runC01(c *Check) {
 		}
 		for i, rs := range c.SuccessSites(cl, 0, "nil") {
 			skipSelf := CmpLit("==", func(t *Term) bool { return t.V == ssa.Value(host) }, func(t *Term) bool { return sameHostCell(p, t, recvT) })
-			c.Gate(cfa, rs.At, nthKey("repoint:closure-nil", i+1), "the re-pointing closure reports success only if it re-pointed the host, or the host is the promoted one or unreachable",
-				p.NilErr(fnChange), skipSelf, FieldLit(false, "PingOk"))
+			c.Gate(cfa, rs.At, nthKey("repoint:closure-nil", i+1), "the re-pointing closure reports success only if it re-pointed the host, or the host is the promoted one, unreachable or not registered",
+				p.NilErr(fnChange), skipSelf, FieldLit(false, "PingOk"), func(l Lit) bool {
+					// not registered (any more): nothing to re-point
+					return !l.Pos && l.T.Op == "extract" && l.T.Name == "1" && len(l.T.Args) == 1 && l.T.Args[0].Op == "lookup" && l.T.Args[0].Args[1].V == ssa.Value(host)
+				})
 		}
 		list := rp.Args[1]
 		c.Req(derivesOnly(list, func(a *Term) bool {
